@@ -941,7 +941,13 @@ func hasEntrypoints(
 	rewrite *openfgav1.Userset,
 	visitedRelations map[string]map[string]bool,
 ) (bool, bool, error) {
-	v := maps.Clone(visitedRelations)
+	// Deep copy: the per-type maps must not be shared between sibling branches of an
+	// intersection or exclusion, otherwise a relation explored by one operand is seen as
+	// "already visited" (and skipped) by the next one.
+	v := make(map[string]map[string]bool, len(visitedRelations)+1)
+	for typeName, relations := range visitedRelations {
+		v[typeName] = maps.Clone(relations)
+	}
 
 	// Presence of a key represents that we've visited that object and relation. We keep track of this to avoid stack overflows.
 	// The value of the key represents hasEntrypoints for that relation. We set this to true only when the relation is directly assignable.
